@@ -115,7 +115,7 @@ def case(ops, L, crashes):
 
 
 def main(tier=None):
-    c = Check("C15", ["Wasp.Properties.C15"], tier)
+    c = Check("C15", ["Wasp.Properties.C15", "Wasp.Properties.Facts.C15"], tier)
     c.build()
     rng = c.rng
     samples = []
